@@ -50,7 +50,9 @@ LEAF_OPS = [
 opspecs.op('starmap_safe', lambda c: __import__('rxsci').ops.map(lambda i: (i, i)), lambda: opspecs.M.Map(lambda i: (i, i)))
 opspecs.FUNCS.setdefault('exc_to_int', lambda e: -1)
 
-HO = ['group_by', 'roll11', 'roll21', 'roll22', 'roll32', 'roll23', 'roll31', 'roll52', 'roll43', 'split', 'ts_inc', 'ts_exc']
+HO = ['group_by', 'roll11', 'roll21', 'roll22', 'roll32', 'roll23', 'roll31', 'roll52', 'roll43', 'split', 'ts_inc', 'ts_exc',
+      'split_f', 'group_by_f']          # _f: predicate / key values are None and 0 (falsy, distinct)
+opspecs.FUNCS.setdefault('none_or_0', lambda x: None if x % 2 == 0 else 0)
 TEES = [('tee_zip', 'zip'), ('tee_merge', 'merge'), ('tee_cl', 'combine_latest')]
 LEAVES_B = [[['identity']], [['filter', 'even']], [['to_list']], [['last']], [['count', True]], [['take', 1]],
             [['map', 'dup'], ['flat_map']], [['batch', 2]]]
@@ -63,6 +65,10 @@ def wrap(parent, inner):
         return [['roll', int(parent[4]), int(parent[5]), inner]]
     if parent == 'split':
         return [['split', 'even', inner]]
+    if parent == 'split_f':
+        return [['split', 'none_or_0', inner]]
+    if parent == 'group_by_f':
+        return [['group_by', 'none_or_0', inner]]
     if parent == 'ts_inc':
         return [['time_split', None, None, 'even', True, inner, 'ident']]
     if parent == 'ts_exc':
